@@ -1,0 +1,20 @@
+//go:build verif
+
+package chain
+
+import (
+	"context"
+
+	cfg "github.com/tendermint/tendermint/config"
+
+	"github.com/shutter-network/rolling-shutter/rolling-shutter/medley/service"
+)
+
+// VerifStart runs the start-up path of the chain command (appService.Start) on the tendermint root
+// directory rootDir. Without a node key in that directory the path returns an error after the
+// shuttermint state file has been loaded and before a tendermint node is created.
+func VerifStart(ctx context.Context, rootDir string, runner service.Runner) error {
+	config := cfg.DefaultConfig()
+	config.SetRoot(rootDir)
+	return (&appService{config: config}).Start(ctx, runner)
+}
